@@ -4,7 +4,7 @@
 # on the changed tree and passes on the original; then keeps it as /verif/seeded/<seeded-id>/.
 set -u
 P=$1; SID=$2; DEMO=$3; RUN=$4; PKG=$5
-WT=/tmp/wt-$P
+WT=${6:-/tmp/wt-$P}
 export GOFLAGS=-mod=mod GOPROXY=off GOSUMDB=off GOTOOLCHAIN=local
 cd $WT || exit 2
 git diff -- . > /tmp/$SID.patch
